@@ -93,6 +93,27 @@ def handle : Handler := fun op args =>
         let step := (b - a) / ((n : Rat) - 1)
         (List.range n).map (fun (i : Nat) => a + (i : Rat) * step)
       outE (exportFunction f xs us h) fun b => encHex b
+  -- Export_Function(range overload, linear) + Import_Table with the number of header lines written
+  | "c20.rtfuncL" => withArgs (do let h ← pBytes; let us ← pRats; let a ← pRat; let b ← pRat; let n ← pNat; let c ← pRats; pure (h, us, a, b, n, c)) args
+      fun (h, us, a, b, n, c) =>
+      if us.any (· = 0) then "undef" else
+      let f (x : Rat) : Rat := c.foldr (fun ci acc => ci + x * acc) 0
+      let xs : List Rat := if n < 2 ∨ a = b then [a] else
+        let step := (b - a) / ((n : Rat) - 1)
+        (List.range n).map (fun (i : Nat) => a + (i : Rat) * step)
+      let nh := if h.isEmpty then 0 else (splitLines h []).length
+      match exportFunction f xs us h with
+      | .error .diag => "err"
+      | .error .undef => "undef"
+      | .ok bytes =>
+        "ok " ++ encHex bytes ++ " " ++ toString (countLines bytes) ++ " " ++
+          (match importTable bytes us nh with
+           | .ok r => showTable r
+           | .error .diag => "err"
+           | .error .undef => "undef")
+  -- logarithmic spacing (Log_Space: exp/log) is not modelled: decided by the round-trip oracle alone
+  | "c20.rtfuncG" => withArgs (do let h ← pBytes; let us ← pRats; let a ← pRat; let b ← pRat; let n ← pNat; let c ← pRats; pure (h, us, a, b, n, c)) args
+      fun _ => "ok -"
   | "c20.implist" => withArgs (do let b ← pBytes; let u ← pRat; let k ← pNat; pure (b, u, k)) args fun (b, u, k) =>
       outE (importList b u k) showList
   | "c20.imptable" => withArgs (do let b ← pBytes; let us ← pRats; let k ← pNat; pure (b, us, k)) args fun (b, us, k) =>
